@@ -2,8 +2,29 @@ module verifharness
 
 go 1.19
 
-require github.com/SKAARHOJ/rawpanel-lib v0.0.0
+require (
+	github.com/SKAARHOJ/rawpanel-lib v1.2.3
+	google.golang.org/protobuf v1.34.1
+)
 
-require github.com/SKAARHOJ/ibeam-lib-utils v1.0.0 // indirect
+require (
+	github.com/SKAARHOJ/ibeam-lib-utils v1.0.0 // indirect
+	github.com/SKAARHOJ/rawpanel-processors v1.0.0 // indirect
+	github.com/antchfx/xpath v1.2.4 // indirect
+	github.com/disintegration/gift v1.2.1 // indirect
+	github.com/fogleman/gg v1.3.0 // indirect
+	github.com/golang/freetype v0.0.0-20170609003504-e2365dfdc4a0 // indirect
+	github.com/mattn/go-colorable v0.1.13 // indirect
+	github.com/mattn/go-isatty v0.0.20 // indirect
+	github.com/petermattis/goid v0.0.0-20230518223814-80aa455d8761 // indirect
+	github.com/s00500/env_logger v0.1.29 // indirect
+	github.com/sasha-s/go-deadlock v0.3.1 // indirect
+	github.com/sirupsen/logrus v1.9.3 // indirect
+	github.com/subchen/go-xmldom v1.1.2 // indirect
+	go.uber.org/atomic v1.11.0 // indirect
+	golang.org/x/exp v0.0.0-20230728194245-b0cb94b80691 // indirect
+	golang.org/x/image v0.9.0 // indirect
+	golang.org/x/sys v0.20.0 // indirect
+)
 
 replace github.com/SKAARHOJ/rawpanel-lib => /repo
